@@ -217,12 +217,14 @@ def operand_decl(ctype, name, k):
     raise Undecided('no operand generator for lowered parameter type %r' % ctype)
 
 
-def ext_models(u, slots=4):
+def ext_models(u, slots=4, skip=()):
     """foreign operand nodes: every virtual accessor a factory may call on an operand is an arbitrary function of the receiver
     (`slots` receivers cached per accessor; more receivers than that fail an assertion, so nothing is silently identified)"""
     t = ''
     for v in u.json['virtual_stubs']:
         ret, params, name = v['ret'].strip(), v['params'], v['name'] + '__ext'
+        if name in skip:
+            continue
         first = re.match(r'(.*?)(\w+)(?:,|$)', params).group(2)
         if ret == 'void':
             t += 'void %s(%s) { }\n' % (name, params); continue
